@@ -36,7 +36,7 @@ theorem swapBits_left (x y : Nat) (b : Bits) : swapBits x y b x = b y := by simp
 theorem swapBits_right (x y : Nat) (b : Bits) : swapBits x y b y = b x := by
   by_cases h : y = x <;> simp [swapBits, h]
 
-theorem swapBits_other (x y : Nat) (b : Bits) {w : Nat} (hx : w ≠ x) (hy : w ≠ y) :
+theorem swapBits_other_tr (x y : Nat) (b : Bits) {w : Nat} (hx : w ≠ x) (hy : w ≠ y) :
     swapBits x y b w = b w := by simp [swapBits, hx, hy]
 
 theorem swapBits_invol (x y : Nat) (b : Bits) : swapBits x y (swapBits x y b) = b := by
@@ -45,7 +45,7 @@ theorem swapBits_invol (x y : Nat) (b : Bits) : swapBits x y (swapBits x y b) = 
   · subst hx; rw [swapBits_left, swapBits_right]
   · by_cases hy : i = y
     · subst hy; rw [swapBits_right, swapBits_left]
-    · rw [swapBits_other _ _ _ hx hy, swapBits_other _ _ _ hx hy]
+    · rw [swapBits_other_tr _ _ _ hx hy, swapBits_other_tr _ _ _ hx hy]
 
 /-! ### 6c. Wires outside the pairs are untouched (no `Nodup` needed) -/
 
@@ -61,7 +61,7 @@ theorem swapPairs_other (ps : List (Nat × Nat)) (b : Bits) (w : Nat)
   | cons p ps ih =>
     obtain ⟨x, y⟩ := p
     have h0 := hw (x, y) (List.mem_cons_self ..)
-    rw [swapPairs_cons, swapBits_other _ _ _ (Ne.symm h0.1) (Ne.symm h0.2)]
+    rw [swapPairs_cons, swapBits_other_tr _ _ _ (Ne.symm h0.1) (Ne.symm h0.2)]
     exact ih (fun p hp => hw p (List.mem_cons_of_mem _ hp))
 
 /-! ### 2, 3, 4. Denotation -/
@@ -177,7 +177,7 @@ theorem swapPairs_fst_mem (ps : List (Nat × Nat)) (hnd : PairsNodup ps) (b : Bi
     rcases List.mem_cons.1 hp with rfl | hp
     · rw [swapBits_left]
       exact swapPairs_other ps b y (fun p hp => (hdis p hp).2)
-    · rw [swapBits_other _ _ _ (hdis p hp).1.1 (hdis p hp).2.1]
+    · rw [swapBits_other_tr _ _ _ (hdis p hp).1.1 (hdis p hp).2.1]
       exact ih hnd' p hp
 
 theorem swapPairs_snd_mem (ps : List (Nat × Nat)) (hnd : PairsNodup ps) (b : Bits) :
@@ -192,7 +192,7 @@ theorem swapPairs_snd_mem (ps : List (Nat × Nat)) (hnd : PairsNodup ps) (b : Bi
     rcases List.mem_cons.1 hp with rfl | hp
     · rw [swapBits_right]
       exact swapPairs_other ps b x (fun p hp => (hdis p hp).1)
-    · rw [swapBits_other _ _ _ (hdis p hp).1.2 (hdis p hp).2.2]
+    · rw [swapBits_other_tr _ _ _ (hdis p hp).1.2 (hdis p hp).2.2]
       exact ih hnd' p hp
 
 theorem swapPairs_fst (ps : List (Nat × Nat))
